@@ -31,6 +31,14 @@ Definition selected_build (c : mcli) (b : build_info) : bool :=
 
 Definition is_all (s : selector) : bool := match s with SelAll => true | SelSome _ => false end.
 
+(* `laze clean [--unused]`: ninja's clean / cleandead tool on the build file of the mode; nothing is
+   generated (main.rs, the `clean` arm) *)
+Definition clean_argv (file : str) (verbose unused : bool) : list str :=
+  ninja_argv file verbose (Some [S_ "-t"; if unused then S_ "cleandead" else S_ "clean"]) None None.
+Definition main_clean (ninja_ok : list str -> bool) (file : str) (verbose unused : bool) : outcome :=
+  let argv := clean_argv file verbose unused in
+  {| o_actions := [ANinja argv]; o_exit := if ninja_ok argv then 0 else 1 |}.
+
 Section Main.
   Variable ninja_ok : list str -> bool.
   Variable task_ok : str -> str -> bool.
